@@ -1,5 +1,6 @@
-(* C01 / C03: the first pass of the eager reader (coq/P21Pass1.v) creates every well-formed simple
-   instance of a data section, whatever its layout, under its own name and keyword. *)
+(* C01 / C03: the first pass of the eager reader (coq/P21Pass1.v) creates every well-formed instance of a
+   data section - simple or externally mapped - whatever its layout, under its own name and with its
+   keyword or the names of its parts. *)
 From Coq Require Import List ZArith Bool NArith Lia.
 From SC Require Import P21Lex P21Str P21Str_Proofs P21Sep P21Sep_Proofs P21Skip P21Skip_Proofs P21Pass1.
 Import ListNotations.
@@ -127,6 +128,221 @@ Section Simple.
   Qed.
 End Simple.
 
+(* ---------------- the records of the parts of an externally mapped instance ---------------- *)
+Lemma skip_balanced_S f l depth : skip_balanced (S f) l depth =
+  match l with
+  | [] => None
+  | c :: r =>
+    if c =? RPAR then match depth with O | S O => Some r | S d => skip_balanced f r d end
+    else if c =? LPAR then skip_balanced f r (S depth)
+    else if c =? APOS then
+      let '(_, unclosed, r') := get_literal l in
+      if unclosed then None else skip_balanced f r' depth
+    else skip_balanced f r depth
+  end.
+Proof. reflexivity. Qed.
+
+Lemma bchr_ok_tests c : bchr_ok c = true -> (c =? LPAR) = false /\ (c =? RPAR) = false /\ (c =? APOS) = false.
+Proof.
+  unfold bchr_ok. intros H. apply andb_true_iff in H. destruct H as [H H3]. apply andb_true_iff in H. destruct H as [H1 H2].
+  apply negb_true_iff in H1, H2, H3. repeat split; assumption.
+Qed.
+
+Lemma skip_balanced_tokens ts : forall d rest f,
+  closes d ts = true -> (length (brender ts) <= f)%nat ->
+  skip_balanced f (brender ts ++ rest) d = Some rest.
+Proof.
+  induction ts as [|t r IH]; intros d rest f Hc Hf; [discriminate Hc|].
+  change (brender (t :: r)) with (btext t ++ brender r) in *. rewrite app_length in Hf.
+  destruct t as [its| | |c].
+  - (* a string *)
+    cbn [closes] in Hc. apply andb_true_iff in Hc. destruct Hc as [Hc Hr]. apply andb_true_iff in Hc. destruct Hc as [Hi Hn].
+    apply negb_true_iff in Hn.
+    cbn [btext] in *. cbn [length] in Hf. destruct f as [|f']; [lia|].
+    rewrite <- app_assoc. cbn [app]. rewrite skip_balanced_S. rewrite <- app_assoc. cbn [app].
+    change (APOS =? RPAR) with false. change (APOS =? LPAR) with false. change (APOS =? APOS) with true. cbv iota.
+    rewrite (literal_extent its (brender r ++ rest) Hi).
+    + apply IH; [exact Hr|]. rewrite app_length in Hf. cbn [length] in Hf. lia.
+    + destruct r as [|t2 r2]; [discriminate Hr|].
+      change (brender (t2 :: r2)) with (btext t2 ++ brender r2) in *.
+      destruct t2 as [its2| | |c2]; cbn [btext app head_is not_apos_head] in *; try reflexivity; exact Hn.
+  - (* an opening parenthesis *)
+    cbn [closes] in Hc. cbn [btext app length] in *. destruct f as [|f']; [lia|].
+    rewrite skip_balanced_S. change (LPAR =? RPAR) with false. change (LPAR =? LPAR) with true. cbv iota.
+    apply IH; [exact Hc|lia].
+  - (* a closing parenthesis *)
+    cbn [btext app length] in *. destruct f as [|f']; [lia|].
+    rewrite skip_balanced_S. change (RPAR =? RPAR) with true. cbv iota.
+    cbn [closes] in Hc. destruct d as [|[|d']]; [discriminate Hc| |].
+    + destruct r; [reflexivity|discriminate Hc].
+    + apply IH; [exact Hc|lia].
+  - (* another character *)
+    cbn [closes] in Hc. apply andb_true_iff in Hc. destruct Hc as [Hb Hr].
+    destruct (bchr_ok_tests c Hb) as (B1 & B2 & B3).
+    cbn [btext app length] in *. destruct f as [|f']; [lia|].
+    rewrite skip_balanced_S. rewrite B2, B1, B3. apply IH; [exact Hr|lia].
+Qed.
+
+(* ---------------- the loop of CreateSubSuperInstance ---------------- *)
+Lemma part_names_S f l acc : part_names (S f) l acc =
+    match l with
+    | [] => Some (acc, [])
+    | c :: _ =>
+      if c =? RPAR then Some (acc, l)
+      else if Nat.leb 63 (length acc) then Some (acc, l)
+      else
+        let '(nm, r1) := read_std_keyword l in
+        let acc' := acc ++ match nm with [] => [] | _ => [nm] end in
+        match (match nm with [] => Some r1 | _ => skip_simple_record r1 end) with
+        | None => Some (acc', [])
+        | Some r2 =>
+          match skip_junk (S (length r2)) r2 with
+          | None => None
+          | Some [] => Some (acc', [])
+          | Some m => part_names f m acc'
+          end
+        end
+    end.
+Proof. reflexivity. Qed.
+
+Lemma alpha_tests c : is_alpha c = true -> is_space c = false /\ (c =? RPAR) = false /\ is_alnum_us c = true.
+Proof.
+  intros H. assert (A : is_alnum_us c = true) by (unfold is_alnum_us; rewrite H; reflexivity).
+  split; [exact (alnum_not_space c A)|]. split; [|exact A].
+  apply N.eqb_neq. intros ->. discriminate H.
+Qed.
+
+Lemma spaces_then_lpar_not_alnum ws x : forallb is_space ws = true -> head_is is_alnum_us (ws ++ LPAR :: x) = false.
+Proof.
+  destruct ws as [|w ws']; intros H; [reflexivity|].
+  cbn [forallb] in H. apply andb_true_iff in H. destruct H as [Hw _]. cbn [app head_is].
+  destruct (is_alnum_us w) eqn:E; [|reflexivity]. rewrite (alnum_not_space w E) in Hw. discriminate Hw.
+Qed.
+
+(* what stands after a part: a letter (the next part) or the closing parenthesis *)
+Definition part_follow (l : list byte) : Prop :=
+  match l with x :: _ => is_space x = false /\ ((x =? RPAR) || is_alpha x) = true | [] => False end.
+
+Lemma skip_junk_at ws l : forallb is_space ws = true -> part_follow l ->
+  skip_junk (S (length (ws ++ l))) (ws ++ l) = Some l.
+Proof.
+  intros Hws Hl. destruct l as [|x m]; [contradiction|]. destruct Hl as [Hs Ha].
+  cbn [skip_junk]. rewrite (skip_ws_spaces _ _ Hws), (skip_ws_nonspace _ _ Hs). rewrite Ha. reflexivity.
+Qed.
+
+Lemma cpart_follow p more : cpart_ok p = true -> part_follow (cpart_text p ++ more).
+Proof.
+  unfold cpart_ok. intros H. repeat (apply andb_true_iff in H; destruct H as [H ?]).
+  unfold cpart_text. destruct (cp_name p) as [|k0 kw]; [discriminate|].
+  cbn [head_is] in *. cbn [app part_follow].
+  match goal with A : is_alpha k0 = true |- _ => destruct (alpha_tests k0 A) as (T1 & T2 & T3); rewrite A end.
+  split; [exact T1|apply orb_true_r].
+Qed.
+
+Lemma parts_follow ps rest : forallb cpart_ok ps = true -> part_follow (flat_map cpart_text ps ++ RPAR :: rest).
+Proof.
+  destruct ps as [|p ps']; intros H.
+  - cbn [flat_map app part_follow]. split; reflexivity.
+  - cbn [forallb] in H. apply andb_true_iff in H. destruct H as [Hp _].
+    cbn [flat_map]. rewrite <- app_assoc. apply cpart_follow. exact Hp.
+Qed.
+
+Lemma part_names_parts ps : forall acc rest f,
+  forallb cpart_ok ps = true -> (length acc + length ps <= 63)%nat -> (length ps < f)%nat ->
+  part_names f (flat_map cpart_text ps ++ RPAR :: rest) acc = Some (acc ++ map cp_name ps, RPAR :: rest).
+Proof.
+  induction ps as [|p ps IH]; intros acc rest f Hok Hn Hf.
+  - destruct f as [|f']; [cbn [length] in Hf; lia|].
+    cbn [flat_map app map]. rewrite part_names_S. change (RPAR =? RPAR) with true. cbv iota. rewrite app_nil_r. reflexivity.
+  - destruct f as [|f']; [lia|].
+    cbn [forallb] in Hok. apply andb_true_iff in Hok. destruct Hok as [Hp Hps].
+    pose proof (parts_follow ps rest Hps) as Hfol.
+    cbn [flat_map]. rewrite <- app_assoc.
+    set (more := flat_map cpart_text ps ++ RPAR :: rest) in *.
+    unfold cpart_ok in Hp. repeat (apply andb_true_iff in Hp; destruct Hp as [Hp ?]).
+    unfold cpart_text. destruct (cp_name p) as [|k0 kw] eqn:EN; [discriminate|].
+    match goal with A : head_is is_alpha (k0 :: kw) = true |- _ => cbn [head_is] in A; destruct (alpha_tests k0 A) as (T1 & T2 & T3) end.
+    repeat (rewrite <- app_assoc || rewrite <- app_comm_cons). rewrite part_names_S. rewrite T2.
+    assert (L63 : Nat.leb 63 (length acc) = false) by (apply Nat.leb_gt; cbn [length] in Hn; lia).
+    rewrite L63.
+    assert (Hkw : read_std_keyword (k0 :: kw ++ cp_ws1 p ++ LPAR :: brender (cp_toks p) ++ cp_ws2 p ++ more)
+                  = (k0 :: kw, cp_ws1 p ++ LPAR :: brender (cp_toks p) ++ cp_ws2 p ++ more)).
+    { unfold read_std_keyword. rewrite (skip_ws_nonspace _ _ T1).
+      change (k0 :: kw ++ ?m) with ((k0 :: kw) ++ m).
+      rewrite (std_keyword_loop_app (k0 :: kw) _ []); [reflexivity|assumption|].
+      apply spaces_then_lpar_not_alnum. assumption. }
+    rewrite Hkw. cbv zeta iota beta.
+    assert (Hrec : skip_simple_record (cp_ws1 p ++ LPAR :: brender (cp_toks p) ++ cp_ws2 p ++ more) = Some (cp_ws2 p ++ more)).
+    { unfold skip_simple_record. rewrite skip_ws_spaces by assumption. rewrite skip_ws_nonspace by reflexivity.
+      change (LPAR =? LPAR) with true. cbv iota.
+      apply skip_balanced_tokens; [assumption|]. rewrite app_length. lia. }
+    rewrite Hrec.
+    rewrite (skip_junk_at (cp_ws2 p) more) by assumption.
+    assert (IHm : part_names f' more (acc ++ [k0 :: kw]) = Some ((acc ++ [k0 :: kw]) ++ map cp_name ps, RPAR :: rest)).
+    { apply IH; [exact Hps| |].
+      - rewrite app_length. cbn [length] in *. lia.
+      - cbn [length] in Hf. lia. }
+    clearbody more. destruct more as [|x m]; [contradiction|].
+    rewrite IHm. rewrite <- app_assoc. cbn [app map]. rewrite EN. reflexivity.
+Qed.
+
+Lemma flat_map_length_ge {A} (f : A -> list byte) (l : list A) :
+  (forall a, (1 <= length (f a))%nat) -> (length l <= length (flat_map f l))%nat.
+Proof.
+  intros H. induction l as [|a l IH]; [apply le_n|]. cbn [flat_map length]. rewrite app_length. pose proof (H a). lia.
+Qed.
+
+Lemma cpart_text_length p : (1 <= length (cpart_text p))%nat.
+Proof. unfold cpart_text. rewrite !app_length. cbn [length]. lia. Qed.
+
+Section Complex.
+  Variable creatable : list byte -> bool.
+  Variable legal : list (list byte) -> option bool.
+
+  Lemma create_complex (i : cinst) (have : list Z) (next : list byte) :
+    cinst_ok i next = true -> legal (map cp_name (ci_parts i)) = Some true -> ~ In (ival (ci_ds i)) have ->
+    create_instance creatable legal have (cinst_body i ++ next)
+    = (Some (CComplex (ival (ci_ds i)) (map cp_name (ci_parts i))), Some (token_separator next), Done).
+  Proof.
+    intros Hok Hl Hnew. unfold cinst_ok in Hok.
+    repeat match type of Hok with (_ && _) = true => apply andb_true_iff in Hok; let H := fresh "C" in destruct Hok as [Hok H] end.
+    apply negb_true_iff in C4. apply Z.leb_le in C3. apply Nat.leb_le in C0.
+    unfold cinst_body. repeat (rewrite <- app_assoc || rewrite <- app_comm_cons). change ([] ++ next) with next.
+    unfold create_instance.
+    destruct (ci_ds i) as [|d0 ds'] eqn:ED; [discriminate C4|].
+    assert (Hd0 : is_digit d0 = true) by (cbn [forallb] in C5; apply andb_true_iff in C5; exact (proj1 C5)).
+    assert (Hd0' : (d0 =? SLASH) = false /\ (d0 =? BSLASH) = false).
+    { unfold is_digit in Hd0. apply andb_true_iff in Hd0. destruct Hd0 as [A B]. apply N.leb_le in A, B.
+      split; apply N.eqb_neq; unfold SLASH, BSLASH; lia. }
+    change ((d0 :: ds') ++ ?m) with (d0 :: (ds' ++ m)).
+    rewrite (token_separator_skips (ci_s1 i) d0 _ C8 (digit_not_space _ Hd0) (proj1 Hd0') (proj2 Hd0')).
+    change (d0 :: ds' ++ ?m) with ((d0 :: ds') ++ m).
+    rewrite (read_int_digits (d0 :: ds') _ C5 ltac:(discriminate) C3 (seps_head_not_digit (ci_s2 i) EQUALS _ C7 eq_refl)).
+    assert (Hdup : existsb (Z.eqb (ival (d0 :: ds'))) have = false).
+    { apply not_true_iff_false. intros E. apply existsb_exists in E. destruct E as [x [Hx Ex]].
+      apply Z.eqb_eq in Ex. subst x. exact (Hnew Hx). }
+    rewrite Hdup.
+    rewrite (token_separator_skips (ci_s2 i) EQUALS _ C7 eq_refl eq_refl eq_refl).
+    change (EQUALS =? EQUALS) with true. cbn [negb]. cbv iota.
+    rewrite (token_separator_skips (ci_s3 i) LPAR _ C6 eq_refl eq_refl eq_refl).
+    change (LPAR =? 38) with false. change (LPAR =? LPAR) with true. cbv iota.
+    set (rest := srender (ci_rec i) ++ SEMI :: next).
+    pose proof (parts_follow (ci_parts i) rest C1) as Hfol.
+    assert (Hsk : skip_ws (ci_ws0 i ++ flat_map cpart_text (ci_parts i) ++ RPAR :: rest) = flat_map cpart_text (ci_parts i) ++ RPAR :: rest).
+    { rewrite (skip_ws_spaces _ _ C2).
+      destruct (flat_map cpart_text (ci_parts i) ++ RPAR :: rest) as [|x m]; [contradiction|].
+      apply skip_ws_nonspace. exact (proj1 Hfol). }
+    rewrite Hsk.
+    rewrite (part_names_parts (ci_parts i) [] rest); [|exact C1|cbn [length]; lia|].
+    - cbn [app]. rewrite Hl. unfold after_record.
+      change (RPAR :: rest) with (srender (SChr RPAR :: ci_rec i) ++ SEMI :: next).
+      rewrite (skip_instance_wellformed (SChr RPAR :: ci_rec i) next); [reflexivity|].
+      cbn [stoks_ok stok_ok]. rewrite C. reflexivity.
+    - rewrite !app_length. pose proof (flat_map_length_ge cpart_text (ci_parts i) cpart_text_length). lia.
+  Qed.
+End Complex.
+
+(* ---------------- the loop of ReadData1 ---------------- *)
 (* ---------------- the loop of ReadData1 ---------------- *)
 Lemma match_prefix_first c r p0 p : (c =? p0) = false -> match_prefix (p0 :: p) (c :: r) = (false, c :: r).
 Proof. intros H. cbn [match_prefix]. rewrite H. reflexivity. Qed.
@@ -150,81 +366,6 @@ Lemma token_separator_at c r : is_space c = false -> (c =? SLASH) = false -> (c 
 Proof.
   intros A B C. exact (token_separator_skips ([], []) c r eq_refl A B C).
 Qed.
-
-Section Loop.
-  Variable creatable : list byte -> bool.
-  Variable legal : list (list byte) -> option bool.
-
-  Definition section_text (is : list sinst) (tail : list byte) : list byte := flat_map sinst_text is ++ tail.
-
-  (* what stands at the head of the loop: the number sign of the next instance, after separators *)
-  Lemma sinst_text_shape i more :
-    sinst_text i ++ more = seps_text (si_s0 i) ++ HASH :: (seps_text (si_s1 i) ++ si_ds i ++ seps_text (si_s2 i) ++ EQUALS :: seps_text (si_s3 i)
-                           ++ si_kw i ++ srender (si_rec i) ++ SEMI :: more).
-  Proof. unfold sinst_text. repeat (rewrite <- app_assoc || rewrite <- app_comm_cons). reflexivity. Qed.
-
-  Lemma pass1_insts is : forall st ws x acc f l,
-    insts_ok is (seps_text st ++ [69; 78; 68; 83; 69; 67] ++ ws ++ SEMI :: x) = true ->
-    seps_ok st = true -> forallb is_space ws = true ->
-    forallb (fun i => creatable (si_kw i)) is = true ->
-    NoDup (map cid acc ++ map (fun i => ival (si_ds i)) is) ->
-    (length is <= f)%nat ->
-    (* l: the text at the head of the loop - the section, possibly with its leading separators already skipped *)
-    token_separator l = token_separator (section_text is (seps_text st ++ [69; 78; 68; 83; 69; 67] ++ ws ++ SEMI :: x)) ->
-    l <> [] -> is <> [] ->
-    pass1 creatable legal (S f) l acc = (acc ++ map sinst_summary is, Done).
-  Proof.
-    induction is as [|i r IH]; intros st ws x acc f l Hok Hst Hws Hcr Hnd Hf Hl Hne Hnn; [congruence|]. clear Hnn.
-    set (tail := seps_text st ++ [69; 78; 68; 83; 69; 67] ++ ws ++ SEMI :: x) in *.
-    cbn [insts_ok] in Hok. apply andb_true_iff in Hok. destruct Hok as [Hi Hr].
-    cbn [forallb] in Hcr. apply andb_true_iff in Hcr. destruct Hcr as [Hci Hcr].
-    set (next := flat_map sinst_text r ++ tail) in *.
-    assert (Hsec : section_text (i :: r) tail = sinst_text i ++ next).
-    { unfold section_text, next. cbn [flat_map]. rewrite <- app_assoc. reflexivity. }
-    rewrite Hsec, sinst_text_shape in Hl.
-    assert (Hs0 : seps_ok (si_s0 i) = true).
-    { pose proof Hi as Hi'. unfold sinst_ok in Hi'. do 10 (apply andb_true_iff in Hi'; destruct Hi' as [Hi' _]). exact Hi'. }
-    rewrite (token_separator_skips (si_s0 i) HASH _ Hs0 eq_refl eq_refl eq_refl) in Hl.
-    destruct l as [|l0 l']; [congruence|].
-    cbn [pass1]. rewrite Hl. rewrite skip_ws_nonspace by reflexivity.
-    change (HASH =? HASH) with true. cbn [negb]. cbv iota.
-    assert (Hnew : ~ In (ival (si_ds i)) (map cid acc)).
-    { cbn [map] in Hnd. apply NoDup_remove_2 in Hnd. intros Hin. apply Hnd. apply in_or_app. left. exact Hin. }
-    rewrite (create_simple creatable legal i (map cid acc) next Hi Hci Hnew).
-    (* what follows *)
-    destruct r as [|i2 r2].
-    - (* the last instance: ENDSEC follows *)
-      unfold next. cbn [flat_map app]. unfold tail.
-      change ([69; 78; 68; 83; 69; 67] ++ ws ++ SEMI :: x) with (69 :: ([78; 68; 83; 69; 67] ++ ws ++ SEMI :: x)).
-      rewrite (token_separator_skips st 69 _ Hst eq_refl eq_refl eq_refl).
-      change (69 :: [78; 68; 83; 69; 67] ++ ws ++ SEMI :: x) with ([69; 78; 68; 83; 69; 67] ++ ws ++ SEMI :: x).
-      rewrite (found_endsec_endsec ws x Hws). reflexivity.
-    - (* another instance follows *)
-      assert (Hnext : next = sinst_text i2 ++ (flat_map sinst_text r2 ++ tail)).
-      { unfold next. cbn [flat_map]. rewrite <- app_assoc. reflexivity. }
-      assert (Hs02 : seps_ok (si_s0 i2) = true).
-      { cbn [insts_ok] in Hr. apply andb_true_iff in Hr. destruct Hr as [Hi2 _].
-        unfold sinst_ok in Hi2. do 10 (apply andb_true_iff in Hi2; destruct Hi2 as [Hi2 _]). exact Hi2. }
-      rewrite Hnext, sinst_text_shape.
-      rewrite (token_separator_skips (si_s0 i2) HASH _ Hs02 eq_refl eq_refl eq_refl).
-      rewrite found_endsec_other by reflexivity.
-      destruct f as [|f']; [cbn [length] in Hf; lia|].
-      specialize (IH st ws x (acc ++ [CSimple (ival (si_ds i)) (si_kw i)]) f'
-                     (HASH :: seps_text (si_s1 i2) ++ si_ds i2 ++ seps_text (si_s2 i2) ++ EQUALS :: seps_text (si_s3 i2)
-                           ++ si_kw i2 ++ srender (si_rec i2) ++ SEMI :: flat_map sinst_text r2 ++ tail)
-                     Hr Hst Hws Hcr).
-      rewrite IH.
-      + rewrite <- app_assoc. reflexivity.
-      + rewrite map_app. cbn [map cid]. rewrite <- app_assoc. cbn [app]. cbn [map] in Hnd.
-        exact Hnd.
-      + cbn [length] in Hf |- *. lia.
-      + rewrite token_separator_at by reflexivity.
-        fold tail. unfold section_text. cbn [flat_map]. rewrite <- app_assoc, sinst_text_shape.
-        rewrite (token_separator_skips (si_s0 i2) HASH _ Hs02 eq_refl eq_refl eq_refl). reflexivity.
-      + discriminate.
-      + discriminate.
-  Qed.
-End Loop.
 
 Lemma skip_ws_seps s c r : seps_ok s = true -> is_space c = false ->
   exists s', seps_ok s' = true /\ skip_ws (seps_text s ++ c :: r) = seps_text s' ++ c :: r.
@@ -257,6 +398,140 @@ Proof.
     rewrite (skip_ws_spaces _ _ Hws). cbn [app]. rewrite skip_ws_nonspace by reflexivity. reflexivity.
 Qed.
 
+Lemma inst_s0_ok i next : inst_ok i next = true -> seps_ok (inst_s0 i) = true.
+Proof.
+  destruct i as [s|c]; cbn [inst_ok inst_s0]; intros H.
+  - unfold sinst_ok in H. do 10 (apply andb_true_iff in H; destruct H as [H _]). exact H.
+  - unfold cinst_ok in H. do 10 (apply andb_true_iff in H; destruct H as [H _]). exact H.
+Qed.
+
+Lemma inst_text_length i : (1 <= length (inst_text i))%nat.
+Proof. unfold inst_text. rewrite app_length. cbn [length]. lia. Qed.
+
+Section Mixed.
+  Variable creatable : list byte -> bool.
+  Variable legal : list (list byte) -> option bool.
+
+  Lemma create_inst (i : inst) (have : list Z) (next : list byte) :
+    inst_ok i next = true -> inst_accepted creatable legal i = true -> ~ In (inst_id i) have ->
+    create_instance creatable legal have (inst_body i ++ next)
+    = (Some (inst_summary i), Some (token_separator next), Done).
+  Proof.
+    destruct i as [s|c]; cbn [inst_ok inst_accepted inst_id inst_body inst_summary]; intros Hok Hacc Hnew.
+    - unfold sinst_body. repeat (rewrite <- app_assoc || rewrite <- app_comm_cons). change ([] ++ next) with next.
+      exact (create_simple creatable legal s have next Hok Hacc Hnew).
+    - apply create_complex; [exact Hok| |exact Hnew].
+      destruct (legal (map cp_name (ci_parts c))) as [[|]|]; [reflexivity|discriminate Hacc|discriminate Hacc].
+  Qed.
+
+  Definition gsection_text (is : list inst) (tail : list byte) : list byte := flat_map inst_text is ++ tail.
+
+  Lemma inst_text_shape i more : inst_text i ++ more = seps_text (inst_s0 i) ++ HASH :: (inst_body i ++ more).
+  Proof. unfold inst_text. rewrite <- app_assoc. reflexivity. Qed.
+
+  Lemma pass1_mixed is : forall st ws x acc f l,
+    ginsts_ok is (seps_text st ++ [69; 78; 68; 83; 69; 67] ++ ws ++ SEMI :: x) = true ->
+    seps_ok st = true -> forallb is_space ws = true ->
+    forallb (inst_accepted creatable legal) is = true ->
+    NoDup (map cid acc ++ map inst_id is) ->
+    (length is <= f)%nat ->
+    token_separator l = token_separator (gsection_text is (seps_text st ++ [69; 78; 68; 83; 69; 67] ++ ws ++ SEMI :: x)) ->
+    l <> [] -> is <> [] ->
+    pass1 creatable legal (S f) l acc = (acc ++ map inst_summary is, Done).
+  Proof.
+    induction is as [|i r IH]; intros st ws x acc f l Hok Hst Hws Hcr Hnd Hf Hl Hne Hnn; [congruence|]. clear Hnn.
+    set (tail := seps_text st ++ [69; 78; 68; 83; 69; 67] ++ ws ++ SEMI :: x) in *.
+    cbn [ginsts_ok] in Hok. apply andb_true_iff in Hok. destruct Hok as [Hi Hr].
+    cbn [forallb] in Hcr. apply andb_true_iff in Hcr. destruct Hcr as [Hci Hcr].
+    set (next := flat_map inst_text r ++ tail) in *.
+    assert (Hsec : gsection_text (i :: r) tail = inst_text i ++ next).
+    { unfold gsection_text, next. cbn [flat_map]. rewrite <- app_assoc. reflexivity. }
+    rewrite Hsec, inst_text_shape in Hl.
+    pose proof (inst_s0_ok i next Hi) as Hs0.
+    rewrite (token_separator_skips (inst_s0 i) HASH _ Hs0 eq_refl eq_refl eq_refl) in Hl.
+    destruct l as [|l0 l']; [congruence|].
+    cbn [pass1]. rewrite Hl. rewrite skip_ws_nonspace by reflexivity.
+    change (HASH =? HASH) with true. cbn [negb]. cbv iota.
+    assert (Hnew : ~ In (inst_id i) (map cid acc)).
+    { cbn [map] in Hnd. apply NoDup_remove_2 in Hnd. intros Hin. apply Hnd. apply in_or_app. left. exact Hin. }
+    rewrite (create_inst i (map cid acc) next Hi Hci Hnew).
+    assert (Hcid : cid (inst_summary i) = inst_id i) by (destruct i; reflexivity).
+    destruct r as [|i2 r2].
+    - unfold next. cbn [flat_map app]. unfold tail.
+      change ([69; 78; 68; 83; 69; 67] ++ ws ++ SEMI :: x) with (69 :: ([78; 68; 83; 69; 67] ++ ws ++ SEMI :: x)).
+      rewrite (token_separator_skips st 69 _ Hst eq_refl eq_refl eq_refl).
+      change (69 :: [78; 68; 83; 69; 67] ++ ws ++ SEMI :: x) with ([69; 78; 68; 83; 69; 67] ++ ws ++ SEMI :: x).
+      rewrite (found_endsec_endsec ws x Hws). reflexivity.
+    - assert (Hnext : next = inst_text i2 ++ (flat_map inst_text r2 ++ tail)).
+      { unfold next. cbn [flat_map]. rewrite <- app_assoc. reflexivity. }
+      assert (Hs02 : seps_ok (inst_s0 i2) = true).
+      { cbn [ginsts_ok] in Hr. apply andb_true_iff in Hr. destruct Hr as [Hi2 _]. exact (inst_s0_ok _ _ Hi2). }
+      rewrite Hnext, inst_text_shape.
+      rewrite (token_separator_skips (inst_s0 i2) HASH _ Hs02 eq_refl eq_refl eq_refl).
+      rewrite found_endsec_other by reflexivity.
+      destruct f as [|f']; [cbn [length] in Hf; lia|].
+      specialize (IH st ws x (acc ++ [inst_summary i]) f'
+                     (HASH :: inst_body i2 ++ flat_map inst_text r2 ++ tail)
+                     Hr Hst Hws Hcr).
+      rewrite IH.
+      + rewrite <- app_assoc. reflexivity.
+      + rewrite map_app. cbn [map]. rewrite Hcid. rewrite <- app_assoc. cbn [app]. cbn [map] in Hnd. exact Hnd.
+      + cbn [length] in Hf |- *. lia.
+      + rewrite token_separator_at by reflexivity.
+        fold tail. unfold gsection_text. cbn [flat_map]. rewrite <- app_assoc, inst_text_shape.
+        rewrite (token_separator_skips (inst_s0 i2) HASH _ Hs02 eq_refl eq_refl eq_refl). reflexivity.
+      + discriminate.
+      + discriminate.
+  Qed.
+End Mixed.
+
+(* every well-formed instance of a data section, simple or externally mapped, is created in file order *)
+Theorem read_data1_mixed creatable legal is st ws x :
+  is <> [] ->
+  ginsts_ok is (seps_text st ++ [69; 78; 68; 83; 69; 67] ++ ws ++ SEMI :: x) = true ->
+  seps_ok st = true -> forallb is_space ws = true ->
+  forallb (inst_accepted creatable legal) is = true ->
+  NoDup (map inst_id is) ->
+  read_data1 creatable legal (gsection_text is (seps_text st ++ [69; 78; 68; 83; 69; 67] ++ ws ++ SEMI :: x))
+  = (map inst_summary is, Done).
+Proof.
+  intros Hne Hok Hst Hws Hcr Hnd.
+  set (tail := seps_text st ++ [69; 78; 68; 83; 69; 67] ++ ws ++ SEMI :: x) in *.
+  destruct is as [|i r]; [congruence|].
+  assert (Hs0 : seps_ok (inst_s0 i) = true).
+  { cbn [ginsts_ok] in Hok. apply andb_true_iff in Hok. destruct Hok as [Hi _]. exact (inst_s0_ok _ _ Hi). }
+  set (more := flat_map inst_text r ++ tail).
+  assert (Hsec : gsection_text (i :: r) tail = inst_text i ++ more).
+  { unfold gsection_text, more. cbn [flat_map]. rewrite <- app_assoc. reflexivity. }
+  unfold read_data1. rewrite Hsec, inst_text_shape.
+  set (B := inst_body i ++ more).
+  destruct (skip_ws_seps (inst_s0 i) HASH B Hs0 eq_refl) as [s' [Hs' Esk]].
+  pose proof (seps_head (inst_s0 i) HASH B Hs0 eq_refl s' Esk) as Hh.
+  unfold found_endsec.
+  destruct (skip_ws (seps_text (inst_s0 i) ++ HASH :: B)) as [|h t] eqn:EL; [contradiction|].
+  assert (Hh69 : (h =? 69) = false).
+  { apply orb_true_iff in Hh. destruct Hh as [E|E]; apply N.eqb_eq in E; subst h; reflexivity. }
+  rewrite (match_prefix_first h t 69 _ Hh69).
+  pose proof (pass1_mixed creatable legal (i :: r) st ws x [] (length (seps_text (inst_s0 i) ++ HASH :: B)) (h :: t)) as P.
+  apply P; [exact Hok|exact Hst|exact Hws|exact Hcr|exact Hnd| | |discriminate|discriminate].
+  - unfold B. rewrite <- inst_text_shape, <- Hsec. unfold gsection_text. rewrite app_length.
+    pose proof (flat_map_length_ge inst_text (i :: r) inst_text_length). lia.
+  - fold tail. rewrite Hsec, inst_text_shape. fold B. rewrite Esk.
+    rewrite (token_separator_skips s' HASH B Hs' eq_refl eq_refl eq_refl).
+    rewrite (token_separator_skips (inst_s0 i) HASH B Hs0 eq_refl eq_refl eq_refl). reflexivity.
+Qed.
+
+(* ---------------- the statement for simple instances alone ---------------- *)
+Definition section_text (is : list sinst) (tail : list byte) : list byte := flat_map sinst_text is ++ tail.
+
+Lemma simple_texts is : flat_map inst_text (map ISimple is) = flat_map sinst_text is.
+Proof. induction is as [|i r IH]; [reflexivity|]. cbn [map flat_map]. rewrite IH. reflexivity. Qed.
+
+Lemma simple_ok is tail : ginsts_ok (map ISimple is) tail = insts_ok is tail.
+Proof.
+  induction is as [|i r IH]; [reflexivity|]. cbn [map ginsts_ok insts_ok inst_ok]. rewrite IH, simple_texts. reflexivity.
+Qed.
+
 (* every well-formed simple instance of a data section is created, in file order, under its name and keyword *)
 Theorem read_data1_wellformed creatable legal is st ws x :
   is <> [] ->
@@ -268,33 +543,9 @@ Theorem read_data1_wellformed creatable legal is st ws x :
   = (map sinst_summary is, Done).
 Proof.
   intros Hne Hok Hst Hws Hcr Hnd.
-  set (tail := seps_text st ++ [69; 78; 68; 83; 69; 67] ++ ws ++ SEMI :: x) in *.
-  destruct is as [|i r]; [congruence|].
-  assert (Hs0 : seps_ok (si_s0 i) = true).
-  { cbn [insts_ok] in Hok. apply andb_true_iff in Hok. destruct Hok as [Hi _].
-    unfold sinst_ok in Hi. do 10 (apply andb_true_iff in Hi; destruct Hi as [Hi _]). exact Hi. }
-  set (more := flat_map sinst_text r ++ tail).
-  assert (Hsec : section_text (i :: r) tail = sinst_text i ++ more).
-  { unfold section_text, more. cbn [flat_map]. rewrite <- app_assoc. reflexivity. }
-  unfold read_data1. rewrite Hsec, sinst_text_shape.
-  set (B := seps_text (si_s1 i) ++ si_ds i ++ seps_text (si_s2 i) ++ EQUALS :: seps_text (si_s3 i)
-            ++ si_kw i ++ srender (si_rec i) ++ SEMI :: more).
-  destruct (skip_ws_seps (si_s0 i) HASH B Hs0 eq_refl) as [s' [Hs' Esk]].
-  pose proof (seps_head (si_s0 i) HASH B Hs0 eq_refl s' Esk) as Hh.
-  unfold found_endsec.
-  destruct (skip_ws (seps_text (si_s0 i) ++ HASH :: B)) as [|h t] eqn:EL; [contradiction|].
-  assert (Hh69 : (h =? 69) = false).
-  { apply orb_true_iff in Hh. destruct Hh as [E|E]; apply N.eqb_eq in E; subst h; reflexivity. }
-  rewrite (match_prefix_first h t 69 _ Hh69).
-  pose proof (pass1_insts creatable legal (i :: r) st ws x [] (length (seps_text (si_s0 i) ++ HASH :: B)) (h :: t)) as P.
-  apply P; [exact Hok|exact Hst|exact Hws|exact Hcr|exact Hnd| | |discriminate|discriminate].
-  - (* enough fuel: one byte at least per instance *)
-    unfold B. rewrite <- sinst_text_shape, <- Hsec. unfold section_text. rewrite app_length.
-    assert (G : forall l : list sinst, (length l <= length (flat_map sinst_text l))%nat).
-    { induction l as [|a l IHl]; [apply le_n|]. cbn [flat_map length]. rewrite app_length.
-      assert (1 <= length (sinst_text a))%nat by (unfold sinst_text; rewrite !app_length; cbn [length]; lia). lia. }
-    pose proof (G (i :: r)). lia.
-  - fold tail. rewrite Hsec, sinst_text_shape. fold B. rewrite Esk.
-    rewrite (token_separator_skips s' HASH B Hs' eq_refl eq_refl eq_refl).
-    rewrite (token_separator_skips (si_s0 i) HASH B Hs0 eq_refl eq_refl eq_refl). reflexivity.
+  pose proof (read_data1_mixed creatable legal (map ISimple is) st ws x) as M.
+  unfold gsection_text in M. rewrite simple_texts, simple_ok in M. rewrite !map_map in M. cbn [inst_summary inst_id] in M.
+  unfold section_text. apply M; try assumption.
+  - destruct is; [congruence|discriminate].
+  - rewrite forallb_forall in Hcr |- *. intros j Hj. apply in_map_iff in Hj. destruct Hj as [s [<- Hs]]. exact (Hcr s Hs).
 Qed.
